@@ -216,6 +216,15 @@ def _tree(task):
         for ha, hb in (([(r1, 0.1), (r1, 0.7)], [(r1, 0.8)]), ([(r1, 0.7), (r2, 0.1), (r1, 0.1)], [(r2, 0.1), (r1, 0.8)])):
             acc.add(check_tolerant_first(spec, ha, hb))
             acc.n("rounding_pairs")
+    if "c" in S.fields(spec):
+        # a bool category and the string of the same name are two categories in memory (one name in JSON): == must at
+        # least be symmetric, and != its negation, whichever side holds which
+        rb, rs = dict(recs[0], c=True), dict(recs[0], c="True")
+        for ha, hb in (([(rb, 1.0)], [(rs, 1.0)]), ([(rs, 1.0)], [(rb, 1.0)]), ([(rb, 1.0), (rs, 0.5)], [(rs, 1.0), (rb, 0.5)])):
+            a_, b_ = core.mk(spec, ha), core.mk(spec, hb)
+            args = {"spec": spec, "ha": core.show_evs(ha), "hb": core.show_evs(hb)}
+            acc.add(eq_checks(a_, b_, ("a",), ("a",), args, "pairs"))
+            acc.n("pairs")
     nbs = NB.valid_neighbours(spec)
     few = [[]] + [h for h in hists if len(h) == 1][:3] + [h for h in hists if len(h) == 2][:2]
     for label, dd, ns in nbs:
@@ -237,6 +246,12 @@ def trees(tier):
     if tier != "quick":
         t += S.D3_quick() + S.D3()
     t += S.DX() + S.NEST2()
+    # quantities with a default argument that is only equal to itself by identity
+    from .c11 import with_qk
+
+    t += [with_qk(x, "lambda_default") for x in S.D1() if "q" in x and not x.get("tr")]
+    t += [with_qk({"t": "Bin", "p": S.BIN_CFG[0], "q": "x", "v": {"t": "Sum", "q": "y"}}, "lambda_default"),
+          with_qk({"t": "Label", "ch": {"a": {"t": "Sum", "q": "x"}, "b": {"t": "Sum", "q": "y"}}}, "lambda_default")]
     seen, out = set(), []
     for s in t:
         k = S.key(s)
